@@ -233,6 +233,12 @@ fn gen_case(rng: &mut Rng) -> LocCase {
             binary,
         };
     }
+    gen_exact(rng)
+}
+
+/// A grammar-valid document corrupted at one generator-known token, with read boundaries aimed
+/// at that token (also used by C01 for a share of its runs).
+pub fn gen_exact(rng: &mut Rng) -> LocCase {
     let mut cfg = gen_cfg(rng);
     cfg.whole = false;
     // now and then a document of thousands of items: the corrupted token then sits at a large
